@@ -64,6 +64,10 @@ def make_pool(seed):
     P['mB'] = S['Tfan4'].build()
     P['mQ'] = S['Q2'].build()
     P['mL'] = S['L3'].build()
+    # an already tagged mesh and a transformed copy of it (copies made by replace() may share containers)
+    P['mT'] = S['Tfan4'].build().with_boundaries({'a': np.array([0, 1], dtype=np.int32)}).with_subdomains(
+        {'s': np.array([0], dtype=np.int32)})
+    P['mT2'] = P['mT'].translated((1., 0.))
     P['eP2'] = E.ElementTriP2()
     P['eMor'] = E.ElementTriMorley()
     P['eLpp'] = E.ElementLinePp(3)
@@ -86,9 +90,16 @@ def make_pool(seed):
 
 def arrays_of_pool(P):
     out = []
-    for k in ('mA', 'mC', 'mB', 'mQ', 'mL'):
+    for k in ('mA', 'mC', 'mB', 'mQ', 'mL', 'mT', 'mT2'):
         m = P[k]
         out += [m.p, m.t]
+        for tags in (m.boundaries, m.subdomains):
+            if tags is None:
+                out.append(np.array([-1]))
+            else:
+                for nm in sorted(tags):
+                    out.append(np.frombuffer(nm.encode(), dtype=np.uint8))
+                    out.append(np.asarray(tags[nm]))
     for k in ('sys1', 'sys2'):
         A, f = P[k]
         out += [A.data, A.indices, A.indptr, f]
@@ -227,6 +238,12 @@ def operations():
     op('mA.refined([0])', {'mA'})(lambda P: [P['mA'].refined(np.array([0])).p, P['mA'].refined(np.array([0])).t])
     op('mB.restrict([0,2])', {'mB'})(lambda P: [P['mB'].restrict(np.array([0, 2])).p, P['mB'].restrict(np.array([0, 2])).t])
     op('mA.with_boundaries', {'mA'})(lambda P: [P['mA'].with_boundaries({'l': lambda x: x[0] < .1}).boundaries['l']])
+    op('mT.with_boundaries(new+redefined)', {'mT', 'mT2'})(
+        lambda P: [P['mT'].with_boundaries({'b': np.array([2], dtype=np.int32), 'a': np.array([3], dtype=np.int32)}).boundaries['a']])
+    op('mT.with_subdomains(new)', {'mT', 'mT2'})(
+        lambda P: [P['mT'].with_subdomains({'r': np.array([1, 2], dtype=np.int32)}).subdomains['r']])
+    op('mT2.boundaries', {'mT', 'mT2'})(lambda P: [np.asarray(P['mT2'].boundaries['a']), np.array(sorted(len(k) for k in P['mT2'].boundaries))])
+    op('mT.restrict+refined', {'mT'})(lambda P: [P['mT'].restrict(np.array([0, 1])).boundaries['a'], P['mT'].refined().boundaries['a']])
     op('mA.translated', {'mA'})(lambda P: [P['mA'].translated((1., 2.)).p])
     op('mQ.to_meshtri', {'mQ'})(lambda P: [P['mQ'].to_meshtri().t, P['mQ'].to_meshtri(style='x').p])
     op('mA.to_dict', {'mA'})(lambda P: [np.array(P['mA'].to_dict()['p']), np.array(P['mA'].to_dict()['t'])])
